@@ -121,6 +121,9 @@ def check(run):
     run.floor('C14-PRNG', n, 2)
     order(run, p, funcs)
     memo(run, p)
+    from .. import ief
+    ief.run_ief(run, 'C14', [p.fn(MOD + '.extract'), p.fn(MOD + '.pdextract')], triage=triage.IEF)
+    run.floor('C14-IEF', run.units['ief_functions_checked'], 60)
 
 
 def order(run, p, funcs):
